@@ -183,6 +183,8 @@ impl Fm {
         if !existed {
             self.entries.insert(node, Loc::In { elem: ei, attr });
         }
+        let ctor = if !via_xot { "insert" } else if attr { "setAttribute" } else { "setNamespace" };
+        sink.stat(&format!("mapop2.{}.{}", ctor, if existed { "existing-key" } else { "new-key" }));
         self.expect(sink, "insert", &req, &resp, "ok");
     }
 
@@ -190,9 +192,13 @@ impl Fm {
         let e = self.elems[ei].label;
         let req = format!("map_remove {} {} {}", kind(attr), e, key);
         let resp = if via_xot { self.exec_as_xot_call(sink, &req) } else { self.s.exec(sink, &req) };
+        let ctor = if !via_xot { "remove" } else if attr { "removeAttribute" } else { "removeNamespace" };
+        let mut present = false;
         if let Some(en) = self.elems[ei].views[vi(attr)].remove(key) {
             self.entries.remove(&en.node);
+            present = true;
         }
+        sink.stat(&format!("mapop2.{}.{}", ctor, if present { "present" } else { "absent" }));
         self.expect(sink, "remove", &req, &resp, "ok");
     }
 
@@ -201,6 +207,7 @@ impl Fm {
         let req = format!("map_clear {} {}", kind(attr), e);
         let resp = self.s.exec(sink, &req);
         let old = std::mem::take(&mut self.elems[ei].views[vi(attr)].0);
+        sink.stat(&format!("mapop2.clear.{}", if old.is_empty() { "empty" } else { "non-empty" }));
         for en in old {
             self.entries.remove(&en.node);
         }
@@ -257,6 +264,10 @@ impl Fm {
     /// `append_attribute_node` / `append_namespace_node` / `any_append` of the entry node `n`
     /// (detached, or attached to this or another element).
     pub fn step_append_node(&mut self, sink: &mut Sink, ei: usize, n: usize, call: &str) {
+        self.step_append_node_x(sink, ei, n, call, false)
+    }
+
+    fn step_append_node_x(&mut self, sink: &mut Sink, ei: usize, n: usize, call: &str, fresh_node: bool) {
         let e = self.elems[ei].label;
         let (attr, key, val) = self.entry_kv(n).expect("known entry node");
         let req = format!("{} {} {}", call, e, n);
@@ -267,10 +278,29 @@ impl Fm {
             _ => true,
         };
         if !fits {
+            sink.stat("outside-mapop2.append-node-of-the-other-kind");
             self.expect(sink, call, &req, &resp, "err:InvalidOperation");
             return;
         }
+        let whose = match self.entries.get(&n) {
+            Some(Loc::Detached { .. }) => if fresh_node { "new" } else { "detached" },
+            Some(Loc::In { elem, .. }) if *elem == ei => "own",
+            _ => "attached",
+        };
         let (carrier, existed) = self.elems[ei].views[vi(attr)].insert(key, val, n);
+        let case = match (whose, existed) {
+            ("own", _) => "identity",
+            ("attached", false) => "moves",
+            ("attached", true) => "key-present-node-stays",
+            (_, false) => "new-key",
+            (_, true) => "existing-key",
+        };
+        if call == "any_append" {
+            sink.stat(&format!("mapop2.anyAppend.{}.{}", if whose == "own" || whose == "attached" { "entry" } else { whose }, if whose == "own" { "own-identity" } else { case }));
+        } else {
+            let ctor = match whose { "new" => "appendNewNode", "detached" => "appendDetachedNode", "own" => "appendOwnNode", _ => "appendAttachedNode" };
+            sink.stat(&format!("mapop2.{}.{}", ctor, case));
+        }
         if !existed {
             // the node itself moved here
             if let Some(Loc::In { elem, attr: a2 }) = self.entries.get(&n).cloned() {
@@ -292,7 +322,7 @@ impl Fm {
 
     fn step_new_and_append(&mut self, sink: &mut Sink, ei: usize, attr: bool, key: usize, val: Pay, call: &str) {
         let n = self.step_new_entry(sink, attr, key, val);
-        self.step_append_node(sink, ei, n, call);
+        self.step_append_node_x(sink, ei, n, call, true);
     }
 
     /// `detach` / `remove` of an entry node.
@@ -300,8 +330,14 @@ impl Fm {
         let (attr, key, val) = self.entry_kv(n).expect("known entry node");
         let req = format!("{} {}", if remove { "remove" } else { "detach" }, n);
         let resp = self.s.exec(sink, &req);
+        let was_attached = matches!(self.entries.get(&n), Some(Loc::In { .. }));
         if let Some(Loc::In { elem, attr: a2 }) = self.entries.get(&n).cloned() {
             self.elems[elem].views[vi(a2)].remove_node(n);
+        }
+        if was_attached {
+            sink.stat(if remove { "mapop2.removeEntryNode" } else { "mapop2.detachEntryNode" });
+        } else {
+            sink.stat(if remove { "outside-mapop2.remove-of-a-parentless-entry-node" } else { "outside-mapop2.detach-of-a-parentless-entry-node" });
         }
         if remove {
             self.entries.remove(&n);
@@ -333,7 +369,7 @@ impl Fm {
         let e = self.elems[ei].label;
         let a = self.node(e);
         let req = match op {
-            "entry_or_insert" | "entry_insert" | "get_mut_set" => format!("{} {} {} {} {}", op, kind(attr), e, key, val.wire()),
+            "entry_or_insert" | "entry_insert" | "occupied_insert" | "vacant_insert" | "get_mut_set" => format!("{} {} {} {} {}", op, kind(attr), e, key, val.wire()),
             "entry_or_default" => format!("{} {} {}", op, e, key),
             "entry_and_modify" => format!("{} {} {} {} {}", op, kind(attr), e, key, arg.wire()),
             "entry_and_modify_or_insert" => format!("{} {} {} {} {} {}", op, kind(attr), e, key, arg.wire(), val.wire()),
@@ -354,6 +390,8 @@ impl Fm {
                 "entry_and_modify" => guarded(|| { let mut m = xot.attributes_mut(a); let _ = m.entry(name).and_modify(|x| x.push_str(&sfx)); }),
                 "entry_and_modify_or_insert" => guarded(|| { let mut m = xot.attributes_mut(a); let _ = m.entry(name).and_modify(|x| x.push_str(&sfx)).or_insert(v); }),
                 "entry_insert" => guarded(|| { let mut m = xot.attributes_mut(a); match m.entry(name) { Entry::Occupied(mut o) => { o.insert(v); } Entry::Vacant(va) => { va.insert(v); } } }),
+                "occupied_insert" => guarded(|| { let mut m = xot.attributes_mut(a); if let Entry::Occupied(mut o) = m.entry(name) { o.insert(v); } }),
+                "vacant_insert" => guarded(|| { let mut m = xot.attributes_mut(a); if let Entry::Vacant(va) = m.entry(name) { va.insert(v); } }),
                 "entry_remove" => guarded(|| { let mut m = xot.attributes_mut(a); if let Entry::Occupied(o) = m.entry(name) { o.remove(); } }),
                 _ => { let r = guarded(|| { let mut m = xot.attributes_mut(a); match m.get_mut(name) { Some(x) => { *x = v; true } None => false } }); found = r; r.map(|_| ()) }
             }
@@ -366,6 +404,8 @@ impl Fm {
                 "entry_and_modify" => guarded(|| { let mut m = xot.namespaces_mut(a); let _ = m.entry(p).and_modify(|x| *x = nv); }),
                 "entry_and_modify_or_insert" => guarded(|| { let mut m = xot.namespaces_mut(a); let _ = m.entry(p).and_modify(|x| *x = nv).or_insert(v); }),
                 "entry_insert" => guarded(|| { let mut m = xot.namespaces_mut(a); match m.entry(p) { Entry::Occupied(mut o) => { o.insert(v); } Entry::Vacant(va) => { va.insert(v); } } }),
+                "occupied_insert" => guarded(|| { let mut m = xot.namespaces_mut(a); if let Entry::Occupied(mut o) = m.entry(p) { o.insert(v); } }),
+                "vacant_insert" => guarded(|| { let mut m = xot.namespaces_mut(a); if let Entry::Vacant(va) = m.entry(p) { va.insert(v); } }),
                 "entry_remove" => guarded(|| { let mut m = xot.namespaces_mut(a); if let Entry::Occupied(o) = m.entry(p) { o.remove(); } }),
                 _ => { let r = guarded(|| { let mut m = xot.namespaces_mut(a); match m.get_mut(p) { Some(x) => { *x = v; true } None => false } }); found = r; r.map(|_| ()) }
             }
@@ -379,6 +419,18 @@ impl Fm {
         // the reference
         let view = &mut self.elems[ei].views[vi(attr)];
         let mut want = "ok".to_string();
+        let ctor = match op {
+            "entry_or_insert" => "entryOrInsert",
+            "entry_or_default" => "entryOrDefault",
+            "entry_and_modify" => "entryAndModify",
+            "entry_and_modify_or_insert" => "entryAndModifyOrInsert",
+            "entry_insert" => "entryInsert",
+            "occupied_insert" => "occupiedInsert",
+            "vacant_insert" => "vacantInsert",
+            "entry_remove" => "entryRemove",
+            _ => "getMutSet",
+        };
+        sink.stat(&format!("mapop2.{}.{}", ctor, if view.pos(key).is_some() { "occupied" } else { "vacant" }));
         match op {
             "entry_or_insert" | "entry_or_default" => {
                 let d = if op == "entry_or_default" { Pay::S(String::new()) } else { val };
@@ -404,6 +456,17 @@ impl Fm {
                 let (n, existed) = view.insert(key, val, fresh);
                 if !existed {
                     self.entries.insert(n, Loc::In { elem: ei, attr });
+                }
+            }
+            "occupied_insert" => {
+                if let Some(i) = view.pos(key) {
+                    view.0[i].val = val;
+                }
+            }
+            "vacant_insert" => {
+                if view.pos(key).is_none() {
+                    view.insert(key, val, fresh);
+                    self.entries.insert(fresh, Loc::In { elem: ei, attr });
                 }
             }
             "entry_remove" => {
@@ -552,6 +615,14 @@ impl Fm {
             let resp = format!("n={} e={} {}", ro.0, if ro.1 { 1 } else { 0 }, items.join(" "));
             let req = format!("map_full {} {}", kind(attr), e);
             self.emit_fmap(sink, &req, resp);
+            // `iter()`, `to_vec()`, `to_hashmap()` (key-sorted) of the read-only and of the mutable view
+            let pairs = |l: &Vec<(usize, Pay)>| l.iter().map(|(k, v)| format!("{}:{}", k, v.wire())).collect::<Vec<_>>().join(",");
+            for (i, name) in ["map_iter_ro", "map_iter_mut"].iter().enumerate() {
+                let sn = &snaps[i].1;
+                let resp = format!("iter={} vec={} hm={}", pairs(&sn.2), pairs(&sn.5), pairs(&sn.6));
+                let req = format!("{} {} {}", name, kind(attr), e);
+                self.emit_fmap(sink, &req, resp);
+            }
         }
     }
 
@@ -736,7 +807,7 @@ fn any_val(rng: &mut Rng, attr: bool) -> Pay {
 const OPS: &[(&str, usize)] = &[
     ("insert", 10), ("set", 4), ("remove", 6), ("unset", 3), ("clear", 1), ("new_append", 8), ("new_only", 3), ("append_known", 8),
     ("detach", 4), ("remove_node", 3), ("entry_or_insert", 4), ("entry_or_default", 2), ("entry_and_modify", 4),
-    ("entry_and_modify_or_insert", 4), ("entry_insert", 3), ("entry_remove", 3), ("get_mut_set", 4), ("noise", 3), ("non_element", 1),
+    ("entry_and_modify_or_insert", 4), ("entry_insert", 3), ("occupied_insert", 3), ("vacant_insert", 3), ("entry_remove", 3), ("get_mut_set", 4), ("move", 6), ("noise", 3), ("non_element", 1),
 ];
 
 fn pick_op(rng: &mut Rng) -> &'static str {
@@ -810,6 +881,17 @@ pub fn one_history(rng: &mut Rng, sink: &mut Sink, n_ops: usize) {
                 }
                 fm.step_append_node(sink, ei, n, call);
             }
+            "move" => {
+                let from_other: Vec<usize> = attached.iter().copied().filter(|n| matches!(fm.entries[n], Loc::In { elem, .. } if elem != ei)).collect();
+                if from_other.is_empty() {
+                    continue;
+                }
+                let n = *rng.pick(&from_other);
+                let is_attr = matches!(fm.entries[&n], Loc::In { attr: true, .. });
+                let call = *rng.pick(&["any_append", if is_attr { "append_attr_node" } else { "append_ns_node" }]);
+                sink.stat("append.node-of-other-element");
+                fm.step_append_node(sink, ei, n, call);
+            }
             "detach" | "remove_node" => {
                 let pool = if rng.chance(3, 4) && !attached.is_empty() { &attached } else { &known };
                 if pool.is_empty() {
@@ -845,7 +927,7 @@ pub fn one_history(rng: &mut Rng, sink: &mut Sink, n_ops: usize) {
         }
         after_step(&mut fm, sink, ei, op, true);
         let other = 1 - ei;
-        if matches!(op, "append_known" | "detach" | "remove_node") || rng.chance(1, 4) {
+        if matches!(op, "append_known" | "move" | "detach" | "remove_node") || rng.chance(1, 4) {
             after_step(&mut fm, sink, other, op, true);
         }
         if rng.chance(1, 3) {
@@ -880,6 +962,9 @@ enum XOp {
     Node(usize),
     OrInsert(usize),
     Modify(usize),
+    GetMut(usize),
+    OccInsert(usize),
+    VacInsert(usize),
 }
 
 fn alphabet(with_entry: bool) -> Vec<XOp> {
@@ -894,6 +979,9 @@ fn alphabet(with_entry: bool) -> Vec<XOp> {
         for k in 0..3 {
             v.push(XOp::OrInsert(k));
             v.push(XOp::Modify(k));
+            v.push(XOp::GetMut(k));
+            v.push(XOp::OccInsert(k));
+            v.push(XOp::VacInsert(k));
         }
     }
     v
@@ -927,6 +1015,9 @@ fn exhaustive(sink: &mut Sink, attr: bool, depth: usize, with_entry: bool) {
                 XOp::Node(k) => { fm.step_new_and_append(sink, ei, attr, keys[k], val, if step % 2 == 0 { "any_append" } else if attr { "append_attr_node" } else { "append_ns_node" }); "new_append" }
                 XOp::OrInsert(k) => { fm.step_entry(sink, ei, attr, "entry_or_insert", keys[k], val.clone(), val); "entry_or_insert" }
                 XOp::Modify(k) => { fm.step_entry(sink, ei, attr, "entry_and_modify", keys[k], val.clone(), val); "entry_and_modify" }
+                XOp::GetMut(k) => { fm.step_entry(sink, ei, attr, "get_mut_set", keys[k], val.clone(), val); "get_mut_set" }
+                XOp::OccInsert(k) => { fm.step_entry(sink, ei, attr, "occupied_insert", keys[k], val.clone(), val); "occupied_insert" }
+                XOp::VacInsert(k) => { fm.step_entry(sink, ei, attr, "vacant_insert", keys[k], val.clone(), val); "vacant_insert" }
             };
             if fm.dead {
                 break;
@@ -939,6 +1030,101 @@ fn exhaustive(sink: &mut Sink, attr: bool, depth: usize, with_entry: bool) {
             fm.check_to_string(sink, ei);
         }
         sink.stat("exhaustive.histories");
+    }
+}
+
+// ----------------------------------------------------------------------------------------------
+// exhaustive small scope on TWO elements: every history of `depth` steps over 3 keys of one view
+// with insertions into either element, moves of an entry node from one element to the other,
+// detachment / removal of entry nodes and re-appending of a parentless entry node
+
+#[derive(Clone, Copy, Debug)]
+enum YOp {
+    /// insert(key) at the element
+    Ins(usize, usize),
+    /// append to the element the entry node of the OTHER element found under the key
+    Move(usize, usize),
+    /// detach / remove the entry node of the element found under the key
+    Det(usize, usize),
+    Rem(usize, usize),
+    /// append to the element the oldest parentless entry node
+    Reappend(usize),
+}
+
+fn alphabet2() -> Vec<YOp> {
+    let mut v = vec![];
+    for e in 0..2 {
+        for k in 0..3 {
+            v.push(YOp::Ins(e, k));
+            v.push(YOp::Move(e, k));
+        }
+        v.push(YOp::Reappend(e));
+    }
+    for k in 0..3 {
+        v.push(YOp::Det(0, k));
+        v.push(YOp::Rem(1, k));
+    }
+    v
+}
+
+fn exhaustive2(sink: &mut Sink, attr: bool, depth: usize) {
+    let alpha = alphabet2();
+    let n = alpha.len();
+    let total = n.pow(depth as u32);
+    let keys = if attr { ATTR_KEYS } else { NS_KEYS };
+    for h in 0..total {
+        let mut fm = Fm::new(sink);
+        let (ns0, at0, normal0) = INITIAL[h % INITIAL.len()];
+        let (ns1, at1, normal1) = INITIAL[(h / INITIAL.len() + 1) % INITIAL.len()];
+        fm.add_element(sink, 2, h % 2 == 1, ns0, at0, normal0);
+        fm.add_element(sink, 3, h % 3 == 1, ns1, at1, normal1);
+        let mut x = h;
+        for step in 0..depth {
+            let op = alpha[x % n];
+            x /= n;
+            let val = if attr { Pay::S(format!("w{}", step)) } else { Pay::N(2 + step % 3) };
+            let call = if step % 2 == 0 { "any_append" } else if attr { "append_attr_node" } else { "append_ns_node" };
+            let name = match op {
+                YOp::Ins(e, k) => { fm.step_insert(sink, e, attr, keys[k], val, false); "insert" }
+                YOp::Move(e, k) => {
+                    match fm.elems[1 - e].views[vi(attr)].get(keys[k]).map(|x| x.node) {
+                        Some(nd) => fm.step_append_node(sink, e, nd, call),
+                        None => sink.stat("exhaustive2.move-of-absent-key"),
+                    }
+                    "move"
+                }
+                YOp::Det(e, k) | YOp::Rem(e, k) => {
+                    let remove = matches!(op, YOp::Rem(..));
+                    match fm.elems[e].views[vi(attr)].get(keys[k]).map(|x| x.node) {
+                        Some(nd) => fm.step_unlink(sink, nd, remove),
+                        None => sink.stat("exhaustive2.unlink-of-absent-key"),
+                    }
+                    if remove { "remove_node" } else { "detach" }
+                }
+                YOp::Reappend(e) => {
+                    let mut det: Vec<usize> = fm.entries.iter().filter(|(_, l)| matches!(l, Loc::Detached { .. })).map(|(n, _)| *n).collect();
+                    det.sort();
+                    match det.first() {
+                        Some(&nd) => fm.step_append_node(sink, e, nd, call),
+                        None => sink.stat("exhaustive2.no-parentless-node"),
+                    }
+                    "append_known"
+                }
+            };
+            if fm.dead {
+                break;
+            }
+            for ei in 0..2 {
+                fm.read_both(sink, ei);
+                fm.check_view(sink, ei, attr, name, true);
+                fm.check_view(sink, ei, !attr, name, false);
+            }
+        }
+        if !fm.dead && h % 7 == 0 {
+            fm.check_to_string(sink, 0);
+            fm.check_to_string(sink, 1);
+        }
+        sink.stat("exhaustive2.histories");
     }
 }
 
@@ -957,10 +1143,15 @@ pub fn run(seed: u64, count: usize, tier: &str, sink: &mut Sink) {
             exhaustive(sink, false, 4, false);
             exhaustive(sink, true, 3, true);
             exhaustive(sink, false, 3, true);
+            // two elements, 3 steps out of 20 operations (insertions, moves between the elements,
+            // detach / remove of entry nodes, re-append of a parentless node), both views
+            exhaustive2(sink, true, 3);
+            exhaustive2(sink, false, 3);
         }
         _ => {
             exhaustive(sink, true, 2, true);
             exhaustive(sink, false, 2, true);
+            exhaustive2(sink, true, 2);
         }
     }
 }
